@@ -1,0 +1,136 @@
+//! Verification hook: canonical state fingerprints of a `ServerSession` (feature `verif`).
+use super::active_stream::{ActiveStream, StreamState};
+use super::outstanding_requests::OutstandingRequest;
+use super::session_state::SessionState;
+use super::{PublishMode, ServerSession};
+use verif_hooks::{push_bytes, push_u32, push_u64};
+
+fn mode_byte(mode: &PublishMode) -> u8 {
+    match *mode {
+        PublishMode::Live => 0,
+        PublishMode::Record => 1,
+        PublishMode::Append => 2,
+    }
+}
+
+impl ServerSession {
+    /// The protocol-logic part of the state (everything except the two codecs and the clock).
+    pub fn verif_fingerprint_logic(&self, out: &mut Vec<u8>) {
+        let ServerSession {
+            start_time: _,
+            serializer: _,
+            deserializer: _,
+            connected_app_name,
+            outstanding_requests,
+            next_request_number,
+            current_state,
+            fms_version,
+            object_encoding,
+            active_streams,
+            next_stream_id,
+            peer_window_ack_size,
+            bytes_received: _, // statistic nothing reads
+            bytes_received_since_last_ack,
+        } = self;
+
+        match *connected_app_name {
+            None => out.push(0),
+            Some(ref name) => {
+                out.push(1);
+                push_bytes(out, name.as_bytes());
+            }
+        }
+
+        let mut keys: Vec<&u32> = outstanding_requests.keys().collect();
+        keys.sort();
+        push_u32(out, keys.len() as u32);
+        for key in keys {
+            push_u32(out, *key);
+            match outstanding_requests[key] {
+                OutstandingRequest::ConnectionRequest {
+                    ref app_name,
+                    ref transaction_id,
+                } => {
+                    out.push(0);
+                    push_bytes(out, app_name.as_bytes());
+                    push_u64(out, transaction_id.to_bits());
+                }
+                OutstandingRequest::PublishRequested {
+                    ref stream_key,
+                    ref mode,
+                    ref stream_id,
+                } => {
+                    out.push(1);
+                    push_bytes(out, stream_key.as_bytes());
+                    out.push(mode_byte(mode));
+                    push_u32(out, *stream_id);
+                }
+                OutstandingRequest::PlayRequested {
+                    ref stream_key,
+                    ref stream_id,
+                } => {
+                    out.push(2);
+                    push_bytes(out, stream_key.as_bytes());
+                    push_u32(out, *stream_id);
+                }
+            }
+        }
+
+        push_u32(out, *next_request_number);
+        out.push(match *current_state {
+            SessionState::Started => 0,
+            SessionState::Connected => 1,
+        });
+        push_bytes(out, fms_version.as_bytes());
+        push_u64(out, object_encoding.to_bits());
+
+        let mut keys: Vec<&u32> = active_streams.keys().collect();
+        keys.sort();
+        push_u32(out, keys.len() as u32);
+        for key in keys {
+            push_u32(out, *key);
+            let ActiveStream { current_state } = &active_streams[key];
+            match *current_state {
+                StreamState::Created => out.push(0),
+                StreamState::Publishing {
+                    ref stream_key,
+                    ref mode,
+                } => {
+                    out.push(1);
+                    push_bytes(out, stream_key.as_bytes());
+                    out.push(mode_byte(mode));
+                }
+                StreamState::Playing { ref stream_key } => {
+                    out.push(2);
+                    push_bytes(out, stream_key.as_bytes());
+                }
+                StreamState::Completed => out.push(3),
+            }
+        }
+
+        push_u32(out, *next_stream_id);
+        match *peer_window_ack_size {
+            None => out.push(0),
+            Some(size) => {
+                out.push(1);
+                push_u32(out, size);
+            }
+        }
+        push_u32(out, *bytes_received_since_last_ack);
+    }
+
+    /// The codec part of the state (serializer, deserializer) and the clock anchor.
+    pub fn verif_fingerprint_codec(&self, out: &mut Vec<u8>) {
+        self.serializer.verif_fingerprint(out);
+        self.deserializer.verif_fingerprint(out);
+        push_u64(out, self.start_time.verif_created_ns());
+    }
+
+    pub fn verif_fingerprint_deserializer(&self, out: &mut Vec<u8>) {
+        self.deserializer.verif_fingerprint(out);
+    }
+
+    pub fn verif_ack_state(&self) -> (Option<u32>, u32) {
+        (self.peer_window_ack_size, self.bytes_received_since_last_ack)
+    }
+}
